@@ -20,7 +20,12 @@ type Caller struct {
 
 // Case is one of four scenarios.
 type Case struct {
-	Scenario      string   `json:"scenario"` // wait | close | failover | fallback
+	Scenario      string   `json:"scenario"` // wait | close | failover | fallback | blackout
+	GapMS         int      `json:"gap_ms,omitempty"`     // blackout: delay between the targets going down
+	PingMS        int      `json:"ping_ms,omitempty"`    // blackout: duration of a health probe
+	Stale         bool     `json:"stale,omitempty"`      // blackout: a slow probe reports the health it saw when it started
+	Recoverer     int      `json:"recoverer,omitempty"`  // blackout: which target comes back (index in going-down order)
+	FailDelayMS   []int    `json:"fail_delay_ms,omitempty"` // blackout: per target, how long a call to it takes to fail once it is down
 	Policy        int      `json:"policy"`
 	Targets       int      `json:"targets"`
 	DialTimeoutMS int      `json:"dial_timeout_ms"`
@@ -43,7 +48,7 @@ const slack = 250 * time.Millisecond
 
 func gen(t *rapid.T) Case {
 	c := Case{
-		Scenario:      rapid.SampledFrom([]string{"wait", "wait", "close", "failover", "failover", "fallback"}).Draw(t, "scenario"),
+		Scenario:      rapid.SampledFrom([]string{"wait", "wait", "close", "failover", "failover", "fallback", "blackout", "blackout"}).Draw(t, "scenario"),
 		Policy:        rapid.IntRange(0, 1).Draw(t, "policy"),
 		DialTimeoutMS: rapid.SampledFrom([]int{150, 400, 1000}).Draw(t, "dial_timeout"),
 		UpAtMS:        -1,
@@ -76,6 +81,30 @@ func gen(t *rapid.T) Case {
 		if rapid.IntRange(0, 3).Draw(t, "recovers") > 0 {
 			c.RecoverAtMS = c.DownAtMS + rapid.IntRange(200, 600).Draw(t, "recover_after")
 			c.SecondOutage = rapid.Bool().Draw(t, "second_outage")
+		}
+	case "blackout":
+		c.Targets = rapid.IntRange(2, 3).Draw(t, "targets")
+		c.DialTimeoutMS = 1000
+		c.DownAtMS = rapid.IntRange(150, 300).Draw(t, "down_at")
+		c.GapMS = rapid.SampledFrom([]int{0, 30, 150, 300}).Draw(t, "gap_ms")
+		c.PingMS = rapid.SampledFrom([]int{0, 0, 20, 120}).Draw(t, "ping_ms")
+		c.Stale = rapid.Bool().Draw(t, "stale")
+		c.Recoverer = rapid.IntRange(0, c.Targets-1).Draw(t, "recoverer")
+		c.RecoverAtMS = rapid.IntRange(250, 500).Draw(t, "recover_after")
+		for i := 0; i < c.Targets; i++ {
+			c.FailDelayMS = append(c.FailDelayMS, rapid.SampledFrom([]int{0, 0, 60, 150, 300}).Draw(t, "fail_delay"))
+		}
+		if rapid.Bool().Draw(t, "staggered_detection") {
+			// the shape in which the live list shrinks to one target before that one fails too: the
+			// first targets are refused at once, the last one fails slowly, shortly afterwards, and is
+			// the one that comes back
+			for i := range c.FailDelayMS {
+				c.FailDelayMS[i] = 0
+			}
+			c.FailDelayMS[c.Targets-1] = rapid.SampledFrom([]int{150, 250, 400}).Draw(t, "slow_fail")
+			c.GapMS = rapid.SampledFrom([]int{10, 30, 60}).Draw(t, "short_gap")
+			c.Recoverer = c.Targets - 1
+			c.RecoverAtMS = rapid.IntRange(500, 800).Draw(t, "recover_late")
 		}
 	case "fallback":
 		c.Targets = rapid.IntRange(1, 3).Draw(t, "targets")
@@ -143,6 +172,11 @@ func run(c Case) kit.Outcome {
 			return kit.Outcome{Invalid: true}
 		}
 		return runFailover(c)
+	case "blackout":
+		if c.Targets < 2 || c.DownAtMS < 120 || c.DownAtMS > 5000 || c.GapMS < 0 || c.GapMS > 2000 || c.PingMS < 0 || c.PingMS > 1000 || c.Recoverer < 0 || c.Recoverer >= c.Targets || c.RecoverAtMS < 200 || c.RecoverAtMS > 5000 || c.DialTimeoutMS < 800 {
+			return kit.Outcome{Invalid: true}
+		}
+		return runBlackout(c)
 	case "fallback":
 		if c.FallbackAtMS < 120 || c.FallbackAtMS > 5000 || c.FallbackMS < 30 || c.FallbackMS > 2000 || c.DialTimeoutMS < c.FallbackMS+500 {
 			return kit.Outcome{Invalid: true}
@@ -438,6 +472,71 @@ func runFailover(c Case) kit.Outcome {
 	if usedBefore {
 		out.Classes = append(out.Classes, "x-was-in-use")
 	}
+	return out
+}
+
+// runBlackout: the targets (all in use) go down one after the other until none is live, then one of
+// them recovers and must be used again.
+func runBlackout(c Case) kit.Outcome {
+	hosts := names(c.Targets)
+	frt := kit.NewFakeRT()
+	frt.StaleProbes = c.Stale
+	for i, h := range hosts {
+		frt.SetPingLatency(h, time.Duration(c.PingMS)*time.Millisecond)
+		if i < len(c.FailDelayMS) {
+			if c.FailDelayMS[i] < 0 || c.FailDelayMS[i] > 2000 {
+				return kit.Outcome{Invalid: true}
+			}
+			frt.SetFailDelay(h, time.Duration(c.FailDelayMS[i])*time.Millisecond)
+		}
+	}
+	client := newClient(c, frt, hosts)
+	defer client.Close()
+	t0 := time.Now()
+	stop := spin(client, 3)
+	stopped := false
+	defer func() {
+		if !stopped {
+			stop()
+		}
+	}()
+	time.Sleep(time.Until(t0.Add(time.Duration(c.DownAtMS) * time.Millisecond)))
+	for i, h := range hosts {
+		if i > 0 {
+			time.Sleep(time.Duration(c.GapMS) * time.Millisecond)
+		}
+		frt.SetDown(h, true)
+	}
+	allDownAt := time.Now()
+	time.Sleep(time.Duration(c.RecoverAtMS) * time.Millisecond)
+	back := hosts[c.Recoverer]
+	frt.SetDown(back, false)
+	upAt := time.Now()
+	window := detect + slack + 150*time.Millisecond + 2*time.Duration(c.PingMS)*time.Millisecond
+	time.Sleep(window)
+	stop()
+	stopped = true
+	usedBefore, again := false, false
+	for _, r := range frt.Records() {
+		if r.ID < 0 || r.Addr != back {
+			continue
+		}
+		if r.In.Before(allDownAt) && r.Err == nil {
+			usedBefore = true
+		}
+		if r.Err == nil && r.In.After(upAt) {
+			again = true
+		}
+	}
+	out := kit.Outcome{Classes: []string{"blackout"}}
+	if !usedBefore {
+		out.Classes = append(out.Classes, "recoverer-was-never-used")
+		return out
+	}
+	if !again {
+		return timing("not-used-after-recovery", "all %d targets went down (they had been serving calls), %s came back %v later and answers health probes again, but no call was routed to it during the following %v although two callers were calling continuously (probe duration %d ms, stale probes %v, gap %d ms)", c.Targets, back, upAt.Sub(allDownAt), window, c.PingMS, c.Stale, c.GapMS)
+	}
+	out.Nontrivial = true
 	return out
 }
 
